@@ -340,6 +340,7 @@ impl Mach {
                 self.exec_eval(ins, model, ctx, |s| vec![Some(Ok(s.reg(*a).unwrap().clone()))]);
                 let _ = d;
             }
+            NatOps { seed, count } => crate::big::nat_ops(*seed, *count, ctx),
             Drop { a } => {
                 if (*a as usize) < NREGS {
                     self.regs[*a as usize] = None;
@@ -1089,6 +1090,7 @@ impl Machine for Mach {
         let stepno = ctx.step;
         ctx.logf(|| format!("step {} {:?}", stepno, ins));
         ctx.stats.bump("instr.total");
+        let nv = ctx.violations.len();
         if !self.step_common(ins, model, ctx) && !step_kind(self, ins, model, ctx) {
             ctx.stats.bump("instr.unsupported");
         }
@@ -1096,6 +1098,14 @@ impl Machine for Mach {
             self.judge_written(ins, model, ctx);
         } else if ctx.audits {
             self.audit_impl(Some(ins), model, ctx);
+        }
+        if KIND == Kind::Zbdd {
+            // C09: the Boolean view of ZBDD handles is part of the family-semantics property
+            for v in ctx.violations.iter_mut().skip(nv) {
+                if v.props.iter().any(|p| p == "C02") && !v.props.iter().any(|p| p == "C09") {
+                    v.props.push("C09".into());
+                }
+            }
         }
     }
     fn audit(&mut self, model: &Model, ctx: &mut RunCtx) {
